@@ -54,7 +54,7 @@ fn response_kinds() -> Vec<(&'static str, Vec<u8>, AppProgram)> {
     let resp = |len: usize, declared: bool| {
         AppProgram::uniform(ReqPlan {
             read: ReadPlan::all(512),
-            finish: Finish::Respond(RespSpec { status: 200, body_len: len, declared, threshold: None }),
+            finish: Finish::Respond(RespSpec { status: 200, body_len: len, declared, threshold: None, headers: 0 }),
         })
     };
     vec![
@@ -62,9 +62,13 @@ fn response_kinds() -> Vec<(&'static str, Vec<u8>, AppProgram)> {
         ("identity-5000", get("/r"), resp(5000, true)),
         ("chunked-5000", get("/r"), resp(5000, false)),
         ("chunked-70000", get("/r"), resp(70000, false)),
-        ("identity-70000", get("/r"), AppProgram::uniform(ReqPlan { read: ReadPlan::None, finish: Finish::Respond(RespSpec { status: 200, body_len: 70000, declared: true, threshold: Some(usize::MAX) }) })),
+        ("identity-70000", get("/r"), AppProgram::uniform(ReqPlan { read: ReadPlan::None, finish: Finish::Respond(RespSpec { status: 200, body_len: 70000, declared: true, threshold: Some(usize::MAX), headers: 0 }) })),
         ("continue-then-response", [b"POST /e HTTP/1.1\r\nHost: t\r\nExpect: 100-continue\r\nContent-Length: 4\r\n\r\nbody".as_ref()].concat(), resp(600, true)),
         ("raw-writer-parts", get("/r"), AppProgram::uniform(ReqPlan { read: ReadPlan::None, finish: Finish::Writer { parts: raw_response_parts(0, 1500, 4), flush: true } })),
+        // a response head larger than the 1 KiB write buffer (30 headers of ~50 bytes), alone and
+        // as the second answer of a pipeline, so that the write that fails is the head's own
+        ("big-head", get("/r"), AppProgram::uniform(ReqPlan { read: ReadPlan::None, finish: Finish::Respond(RespSpec { status: 404, body_len: 10, declared: true, threshold: None, headers: 30 }) })),
+        ("pipeline-small-then-big-head", [get("/1"), get("/2")].concat(), AppProgram::with_plans(vec![ReqPlan::simple(), ReqPlan { read: ReadPlan::None, finish: Finish::Respond(RespSpec { status: 404, body_len: 10, declared: true, threshold: None, headers: 30 }) }])),
         ("pipeline-of-two", [get("/1"), get("/2")].concat(), resp(700, true)),
         ("auto-500-after-drop", [get("/1"), get("/2")].concat(), AppProgram::uniform(ReqPlan { read: ReadPlan::None, finish: Finish::Drop })),
     ]
@@ -99,7 +103,9 @@ fn items(tier: Tier) -> &'static Vec<Item> {
     cell.get_or_init(|| {
         let mut v = Vec::new();
         for (ci, c) in the_corpus().iter().enumerate() {
-            let ks: Vec<usize> = if full(tier) { (0..=c.bytes.len()).collect() } else { boundary_offsets(&c.bytes) };
+            // (the buffer-alignment conversations are long and differ only around one offset:
+            // syntactic boundaries and the refill offsets, thorough: every prefix)
+            let ks: Vec<usize> = if full(tier) && !(c.name.starts_with("align") && !deep(tier)) { (0..=c.bytes.len()).collect() } else { boundary_offsets(&c.bytes) };
             let ks: Vec<usize> = if !full(tier) && ks.len() > 80 { ks.iter().step_by(ks.len() / 80 + 1).copied().chain([c.bytes.len()]).collect() } else { ks };
             let variants: Vec<bool> = if c.app == read_all_respond() && !c.name.contains("chunked") && c.name != "cl-and-chunked" {
                 vec![false, true]
@@ -194,6 +200,16 @@ fn scenario(it: &Item) -> (Scenario, String) {
             let offs = boundary_offsets(&rq[..80]);
             let mut script = Vec::new();
             for i in 0..*count {
+                if i % 5 == 4 {
+                    // a witness (every fifth client: with four workers taking turns each worker gets witnesses): an ordinary client whose request must be served as if nobody
+                    // had vanished before it (whichever worker gets it)
+                    script.push((i, Step::Connect));
+                    script.push((i, Step::Send(get(&format!("/witness{}", i)))));
+                    script.push((i, Step::Settle));
+                    script.push((i, Step::CloseWrite));
+                    script.push((i, Step::Settle));
+                    continue;
+                }
                 // prefixes: inside the head (boundary offsets), inside the body, complete
                 let k = match i % 3 {
                     0 => offs[(i / 3) % offs.len()],
@@ -255,6 +271,21 @@ fn judge(sc: &Scenario, obs: &Obs, res: &tiny_http::verif_rt::core::RunResult) -
         if res.end == tiny_http::verif_rt::core::End::Clean {
             if obs.probe_ok != Some(true) {
                 f.push(Failure { clause: "server-unusable", desc: format!("after {} vanished clients a fresh connection was not accepted and served", sc.conns.len()) });
+            }
+            for (i, c) in obs.conns.iter().enumerate() {
+                if i % 5 == 4 {
+                    let url = format!("/witness{}", i);
+                    let delivered = obs.reqs.iter().filter(|r| r.url == url).count();
+                    let st = crate::httpparse::parse_stream(&c.received, &[false]);
+                    let ok = st.error.is_none() && st.finals().len() == 1 && st.finals()[0].status == 200;
+                    if delivered != 1 || !ok {
+                        f.push(Failure {
+                            clause: "witness-not-served",
+                            desc: format!("ordinary client {} (GET {}) after {} earlier clients, most of which vanished: delivered {} time(s), received {:?}", i, url, i, delivered, crate::infra::esc_short(&c.received, 120)),
+                        });
+                        break;
+                    }
+                }
             }
             if obs.live_threads_end > 8 {
                 f.push(Failure { clause: "workers-stuck", desc: format!("{} threads are still alive 6 s after {} clients vanished and the server was dropped", obs.live_threads_end, sc.conns.len()) });
@@ -361,7 +392,7 @@ impl Check for C15 {
     }
     fn rule(&self, tier: Tier) -> String {
         format!(
-            "300 (thorough also 1100) clients one after the other, each sending a different prefix of a request (inside the head, inside a 1500-byte body, complete + pipelined GET) and then closing / resetting / half-closing: no panic, a fresh connection is served afterwards, at most the minimum workers remain 6 s after the server is dropped; (a) for each of the {} corpus conversations (and a respond-without-reading variant): {} prefix length k x {{half-close, close, reset}} x {{server quiescent before the client ends, client ends at once}}; (b) for each response kind {:?}: client gone after exactly j response bytes, j = {}, by close and by reset; client not reading (1 KiB window) then closing/resetting; client gone before the application answers; {} fault scenarios, each followed by a fresh connection that must be served; oracle: nothing incomplete is delivered, after an orderly close everything complete is delivered and answered (reference model), respond() returns Ok, body reads end (no hang), no panic",
+            "300 (thorough also 1100) clients one after the other, each sending a different prefix of a request (inside the head, inside a 1500-byte body, complete + pipelined GET) and then closing / resetting / half-closing, every fifth client an ordinary one whose GET must be delivered once and answered 200: no panic, a fresh connection is served afterwards, at most the minimum workers remain 6 s after the server is dropped; (a) for each of the {} corpus conversations (and a respond-without-reading variant): {} prefix length k x {{half-close, close, reset}} x {{server quiescent before the client ends, client ends at once}}; (b) for each response kind {:?}: client gone after exactly j response bytes, j = {}, by close and by reset; client not reading (1 KiB window) then closing/resetting; client gone before the application answers; {} fault scenarios, each followed by a fresh connection that must be served; oracle: nothing incomplete is delivered, after an orderly close everything complete is delivered and answered (reference model), respond() returns Ok, body reads end (no hang), no panic",
             the_corpus().len(), if full(tier) { "every" } else { "every syntactic-boundary (+-2) " },
             response_kinds().iter().map(|k| k.0).collect::<Vec<_>>(),
             if full(tier) { "0..2048, 4096, 5200 (70000-byte bodies: 9 offsets up to 70100)" } else { "0..2048 step 7, 1023..1025, 4096, 5200" },
